@@ -26,4 +26,9 @@ MUTANTS = [
  {"id": "benign-digit-run-extracted-into-helper", "kind": "benign",
   "edits": [(D, "re:slice\\.chars\\(\\)\\.take_while\\(char::is_ascii_digit\\)\\.collect\\(\\);", "digit_run(slice);", 2),
             (D, "impl DeweyVersion {\n", "fn digit_run(s: &str) -> String {\n    s.chars().take_while(char::is_ascii_digit).collect()\n}\n\nimpl DeweyVersion {\n")]},
+
+ # probes: small semantic tweaks written by hand (each compiles and passes the pinned tests)
+ {"id": "probe-digit-run-unicode-numeric", "kind": "break", "edits": [(D, "re:slice\\.chars\\(\\)\\.take_while\\(char::is_ascii_digit\\)\\.collect\\(\\);", "slice.chars().take_while(|c| c.is_numeric()).collect();", 2)], "expect": ["D1-"]},
+ {"id": "probe-digit-run-hexdigits", "kind": "break", "edits": [(D, "re:slice\\.chars\\(\\)\\.take_while\\(char::is_ascii_digit\\)\\.collect\\(\\);", "slice.chars().take_while(char::is_ascii_hexdigit).collect();", 2)], "expect": ["D1-"]},
+ {"id": "probe-dot-pushes-one", "kind": "break", "edits": [(D, "if c == '.' || c == '_' {\n                version.push(0);", "if c == '.' || c == '_' {\n                version.push(1);")], "expect": ["D1-TOK-TABLE"]},
 ]
